@@ -316,7 +316,8 @@ func collectWorkerViolations(r *Run, ws []*concWorker, phase string) {
 
 // RunConc dispatches on the build / mode.
 func RunConc(r *Run) {
-	setKernel(hostAVX512)
+	// the kernel family is process-wide state: chosen once per run, before any worker starts
+	setKernel(r.C.Intn("avx512", 2) == 1)
 	kernelSwitching = false
 	defer func() { kernelSwitching = true }()
 	if *flagMode == "race" {
